@@ -3,6 +3,7 @@
 from __future__ import annotations
 
 import copy
+import re
 from collections.abc import Mapping
 from collections.abc import Sequence
 from typing import Any
@@ -150,6 +151,7 @@ def delete(data: dict[str, Any], cand: list[Any]) -> dict[str, Any]:
 
 
 _MISSING = object()
+RE_UNDEF_REPR = re.compile(r"(?:Falsy)?StrictUndefined\(")
 
 
 def _scope_get(scope: Any, key: Any) -> Any:
@@ -413,6 +415,10 @@ class C16(Prop):
                         res.labels.append(f"{pol}:survived-undefined")
                     if out[:2] != base[:2]:
                         kind = "output" if out[0] == base[0] == "ok" else f"{base[1] if base[0] == 'err' else 'ok'}-vs-{out[1] if out[0] == 'err' else 'ok'}"
+                        if kind == "output" and RE_UNDEF_REPR.sub("Undefined(", out[1]) == base[1]:
+                            # the texts differ only in the class name inside the Python repr of an undefined
+                            # value that sits in a hash printed with str(dict)
+                            kind = "output:undefined-repr-in-hash"
                         res.fail("refinement", f"refinement:{pol}:{kind}",
                                  f"{label}: default={base!r} {pol}={out!r}; src={src!r} templates={templates!r}")
                         return res
